@@ -131,10 +131,12 @@ func (d *Downstream) closeWithError(ctx context.Context, cause error) (err error
 		StreamID: d.ID,
 	})
 	if err != nil {
+		d.notifyClosedWithError(cause)
 		return errors.Errorf("failed to SendDownstreamCloseRequest: %w", err)
 	}
 
 	if resp.ResultCode != message.ResultCodeSucceeded {
+		d.notifyClosedWithError(cause)
 		return errors.FailedMessageError{
 			ResultCode:      resp.ResultCode,
 			ResultString:    resp.ResultString,
@@ -151,6 +153,21 @@ func (d *Downstream) closeWithError(ctx context.Context, cause error) (err error
 	})
 
 	return nil
+}
+
+// notifyClosedWithError reports a stream that is closed because of cause (e.g. a failed resume)
+// even when the close request itself could not be completed, so that the stream is never lost silently.
+func (d *Downstream) notifyClosedWithError(cause error) {
+	if cause == nil {
+		return
+	}
+	d.eventDispatcher.addHandler(func() {
+		d.Config.ClosedEventHandler.OnDownstreamClosed(&DownstreamClosedEvent{
+			Config: d.Config,
+			State:  *d.State(),
+			Err:    cause,
+		})
+	})
 }
 
 // ReadDataPointsは、ダウンストリームデータポイントを受信します。
